@@ -40,6 +40,10 @@ def run(ctx):
     bl = runner.get_bashlex()
     pool_inputs = ['a b', 'a $(b $(c))', 'a <<E\nx\nE\n', '(', 'a &&', 'a )', 'a "b', 'select x in a; do b; done', 'time a', 'a\nb (', 'if a; then b; fi',
                    'a `b`', 'case x in a) b;; esac', 'a <<E', '` `', '', '#c', 'a $(b', 'f() { a; }', "a 'b' \"c\" \\d", 'a & b; c | d', 'a ${b} ~ $1', 'é=1', 'a\\\n b']
+    # the same names in different syntactic positions (a memo keyed too coarsely shows only then)
+    inter = ['f x', 'function f if a; then b; fi', 'function f while a; do b; done', 'f if', 'echo f done', 'f a=1', 'f() { a; }', 'a=1 f', 'for f in a; do f; done', 'case f in f) f;; esac',
+             'f <<f\nf\n', '$(f) `f`', 'function f { f=1; }', 'if f; then f; fi', 'f $f ${f} "$f"', 'f | f && f']
+    pool_inputs += inter
     pool_inputs += [s for s in common.random_scripts(seed, 30 if quick else 300, mutate=1)]
     pool = []
     for s in pool_inputs:
@@ -68,12 +72,16 @@ def run(ctx):
                                    how='outcome of a call inside a history versus the same call alone in a fresh interpreter; module state snapshots'))
     base_snap = snapshot(bl)
     base_keys = set(bl.tokenizer.sh_syntaxtab.keys())
-    nhist = 150 if quick else 3000
+    inter_pairs = [(('parse', {}, a), ('parse', {}, b)) for a in inter for b in inter if a != b]
+    rng.shuffle(inter_pairs)
+    nhist = (150 if quick else 3000) + len(inter_pairs)
     evaluations = 0; nontrivial = set()
     real_token = bl.tokenizer.tokenizer.token
     for h in range(nhist):
         hist = [rng.choice(pool) for _ in range(rng.randint(2, 7))] if not ctx.get('replay') else list(pool)
         mode = rng.choice(['plain', 'plain', 'reentrant', 'abort'])
+        if not ctx.get('replay') and h < len(inter_pairs):
+            hist = list(inter_pairs[h]); mode = 'plain'
         for idx, p in enumerate(hist):
             key = json.dumps(p, sort_keys=True)
             evaluations += 1
